@@ -79,7 +79,7 @@ def _gap_grid(rng: Rng, m):
 
 def _gap_queries(rng: Rng, g):
     """Query set with locations deep inside the gap (further than 1/8 from every sampling point) and outside it."""
-    inside = [Fraction(1, 2), Fraction(rng.choice([61, 63, 65, 67]), 128)]
+    inside = [Fraction(1, 2), Fraction(rng.choice([57, 59, 61, 63, 65, 67, 69, 71]), 128)]
     outside = [Fraction(rng.randint(3, 30), 128), Fraction(rng.randint(34, 39), 128), Fraction(rng.randint(89, 96), 128), Fraction(rng.randint(100, 125), 128)]
     return sorted(set(inside + outside))
 
@@ -172,9 +172,15 @@ def _case(rng: Rng, tier, entry=None, force=None):
         case["hu"] = rs(rng.choice([Fraction(1, 4), Fraction(3, 8), Fraction(1, 2), Fraction(3, 4), Fraction(1)]))
         if gap:
             case["gap"] = True
-            case["kernel"] = rng.choice(["epanechnikov", "tricube", "bisquare"])
+            far = force.get("far") or rng.random() < 0.4
+            if far:
+                # Gaussian kernel, small bandwidth: the gap locations are 4..10 bandwidths away from every sampling
+                # point (very poorly supported local problems), the other locations are well supported
+                case["far"] = True
+                case["kernel"], case["hu"] = "gaussian", rs(Fraction(1, 32))
+            else:
+                case["kernel"], case["hu"] = rng.choice(["epanechnikov", "tricube", "bisquare"]), rs(Fraction(1, 8))
             case["degree"] = rng.choice([0, 1])
-            case["hu"] = rs(Fraction(1, 8))
     if entry in ("PSplines.predict", "LocalPolynomial.predict"):
         m = rng.choice([6, 9, 12, 17, 25] + ([40] if big else []))
         g = _grid01(rng, m)
@@ -185,7 +191,7 @@ def _case(rng: Rng, tier, entry=None, force=None):
         case["x"] = [rs(t) for t in _scale_pts(dom, g)]
         case["y"] = [rs(t) for t in _curve(rng, g, ykind)]
         if gap:
-            g = _gap_grid(rng, rng.choice([17, 21, 25]))
+            g = _gap_grid(rng, rng.choice([33, 41]) if case.get("far") else rng.choice([17, 21, 25]))
             case["x"] = [rs(t) for t in _scale_pts(dom, g)]
             case["y"] = [rs(t) for t in _curve(rng, g, ykind)]
         gs = sorted(set(g))
@@ -244,7 +250,7 @@ def _case(rng: Rng, tier, entry=None, force=None):
     elif entry.startswith("DenseFunctionalData"):
         cov = entry.endswith("covariance")
         m = rng.choice([7, 8, 10] if cov else [9, 13, 17, 25])
-        g = _gap_grid(rng, rng.choice([17, 21, 25])) if gap else _grid01(rng, m)
+        g = _gap_grid(rng, (rng.choice([33, 41]) if case.get("far") else rng.choice([17, 21, 25]))) if gap else _grid01(rng, m)
         nobs = rng.randint(3, 5) if (cov or entry.endswith("mean")) else rng.randint(1, 3)
         case["x"] = [rs(t) for t in _scale_pts(dom, g)]
         case["X"] = [[rs(t) for t in _curve(rng, g, ykind if k == 0 else rng.choice(["smooth", "rand"]))] for k in range(nobs)]
@@ -268,7 +274,7 @@ def _case(rng: Rng, tier, entry=None, force=None):
             # more than 2000 pooled observations (size threshold of the approximate mean), many curves sharing few locations
             m, nobs = rng.choice([44, 48]), rng.choice([52, 60])
             case["pooled"] = True
-        g = _gap_grid(rng, m if pooled else rng.choice([17, 21, 25])) if gap else _grid01(rng, m)
+        g = _gap_grid(rng, m if pooled else (rng.choice([33, 41]) if case.get("far") else rng.choice([17, 21, 25]))) if gap else _grid01(rng, m)
         m = len(g)
         obs = []
         for k in range(nobs):
@@ -309,6 +315,9 @@ def gen_cases(rng: Rng, tier):
         k += 1
     for entry, method in (("DenseFunctionalData.smooth2d", "LP"), ("DenseFunctionalData.smooth2d", "PS"), ("PSplines.predict2d", "PS")):
         yield _case(rng, tier, entry, dict(method=method, nonconst=True, int_axis0=True))
+        k += 1
+    for entry in ("LocalPolynomial.predict", "DenseFunctionalData.smooth", "DenseFunctionalData.mean", "IrregularFunctionalData.smooth", "IrregularFunctionalData.mean"):
+        yield _case(rng, tier, entry, dict(method="LP", dom=rng.choice(["unit", "doy", "end0"]), nonconst=True, gap=True, far=True))
         k += 1
     for entry in ("LocalPolynomial.predict", "DenseFunctionalData.smooth", "DenseFunctionalData.mean", "IrregularFunctionalData.smooth", "IrregularFunctionalData.mean"):
         yield _case(rng, tier, entry, dict(method="LP", dom=rng.choice(["unit", "doy", "neg"]), nonconst=True, gap=True))
@@ -928,7 +937,7 @@ def classify(case, impl):
     if case.get("pooled"):
         tags.append("pooled>2000")
     if case.get("gap"):
-        tags.append("gap>2h")
+        tags.append("gaussian-far-4..10h" if case.get("far") else "gap>2h")
     if case.get("int_axis0"):
         tags.append("int-dtype-axis0")
     return tags
